@@ -895,5 +895,16 @@ func (db *ContractDB) LoadAll(repo, stdlib string) error {
 	if len(db.Errors) > 0 {
 		return fmt.Errorf("contract errors:\n  %s", strings.Join(db.Errors, "\n  "))
 	}
+	if os.Getenv("GOVC_PROBE") != "" {
+		// vacuity probe (developer tool, `govc vc` only): every verified function gets the postcondition "false".
+		// It must NOT discharge: if it does on every return path, the function's proofs are vacuous (contradictory
+		// precondition or invariants, or an engine hole that loses paths).
+		fe, _ := ParseSpec("false")
+		for _, c := range db.Funcs {
+			if !c.Trusted && !c.Inline {
+				c.Ensures = append(c.Ensures, &Clause{Label: "probe-false", Src: "false (vacuity probe)", E: fe})
+			}
+		}
+	}
 	return nil
 }
